@@ -20,13 +20,32 @@ BENIGN = os.path.join(VERIF, 'benign')
 REPO = '/repo'
 
 
+# checks that exercise a file although no property anchors it
+ALSO = {
+    'rxsci/operators/first.py': ['C10', 'C02', 'C01'], 'rxsci/operators/last.py': ['C10', 'C02', 'C01'],
+    'rxsci/operators/take.py': ['C10', 'C02', 'C01'], 'rxsci/operators/distinct.py': ['C10', 'C02'],
+    'rxsci/operators/distinct_until_changed.py': ['C10', 'C09', 'C01'], 'rxsci/data/lag.py': ['C10', 'C02'],
+    'rxsci/data/pad.py': ['C10', 'C02'], 'rxsci/operators/scan.py': ['C09', 'C02', 'C01'],
+    'rxsci/operators/map.py': ['C13', 'C01', 'C11'], 'rxsci/operators/filter.py': ['C13', 'C01'],
+    'rxsci/operators/starmap.py': ['C13', 'C01'], 'rxsci/error/router.py': ['C13'], 'rxsci/error/map.py': ['C13'],
+    'rxsci/error/ignore.py': ['C13'], 'rxsci/operators/multiplex.py': ['C03', 'C13', 'C04', 'C05'],
+    'rxsci/state/with_store.py': ['C03', 'C02', 'C14'], 'rxsci/state/store.py': ['C14', 'C02'],
+    'rxsci/state/memory_store.py': ['C14', 'C02', 'C04'], 'rxsci/operators/tee_map.py': ['C08', 'C01', 'C13'],
+    'rxsci/data/batch.py': ['C10', 'C20'], 'rxsci/io/file.py': ['C18', 'C19'],
+}
+
+
 def props_for(files):
     out = []
     for l in open(os.path.join(VERIF, 'properties.jsonl')):
         p = json.loads(l)
         if any(f in p['anchors']['files'] for f in files):
             out.append(p['id'])
-    return out
+    for f in files:
+        for c in ALSO.get(f, []):
+            if c not in out:
+                out.append(c)
+    return sorted(out)
 
 
 def do_import(src, group):
